@@ -358,7 +358,15 @@ func checkC17(c *core.Ctx, l *core.Ledger) {
 	}
 	if f := c.SSAFunc(c.LookupFunc("", "verifyAncestry")); f != nil {
 		ok := false
-		for _, cl := range core.WithClosures(f) {
+		// the function itself, its closures, and whatever function value it hands to Walk (a method value, a named function)
+		scan := core.WithClosures(f)
+		for _, wc := range callsIn(f, "Walk") {
+			args := wc.(ssa.CallInstruction).Common().Args
+			if g := funcValueTarget(args[len(args)-1]); g != nil {
+				scan = append(scan, g)
+			}
+		}
+		for _, cl := range scan {
 			core.Instrs(cl, func(in ssa.Instruction) {
 				if call, isC := in.(*ssa.Call); isC && core.IsCallTo(call, "strings", "HasPrefix") {
 					if k, isK := call.Call.Args[1].(*ssa.Const); isK && k.Value != nil && k.Value.ExactString() == `".."` {
